@@ -215,6 +215,60 @@ def rule_out_param(rep, mi):
     rep.floor('R3-reads-of-column-index', n, 3)
 
 
+def rule_bound_folding(rep, fo, mi):
+    """R4: two bounds on one column are folded into max(lower bounds) / min(upper bounds) with the functor OF THE COLUMN'S TYPE
+    (getMaxOp/getMinOp type tables agree with FUNCTOR_INTRINSICS), and lower<->max, upper<->min"""
+    from props import C24
+    decl = C24.declared_functors(fo, rep)
+    legacy = {}
+    for f in fo.funcs(name='functorOpNameLegacy'):
+        for sw in tables.switches(f, enum='FunctorOp'):
+            for g in sw.groups:
+                lit = [m.get('str') for s_ in g.stmts for m in walk(s_) if m['k'] == 'StringLiteral']
+                for l in g.labels:
+                    legacy[l] = lit[0] if lit else None
+    if not legacy:
+        rep.analysis_broken('functorOpNameLegacy table not found')
+    n = 0
+    for fn, want in (('getMinOp', 'min'), ('getMaxOp', 'max')):
+        fs = fo.funcs(name=fn)
+        cm = char_map(fs[0]) if fs else None
+        if not cm:
+            rep.analysis_broken('%s: type switch not found' % fn)
+            continue
+        for lab, T in (('f', 'F'), ('u', 'U'), ('i', 'S'), ('default', 'S')):
+            op = cm.get(lab, cm.get('default'))
+            rows = decl.get(op) or [{}]
+            ok = rows[0].get('params', [None])[0] == T and legacy.get(op) == want
+            n += 1
+            rep.ob('R4-bound-folding-functor-type', '%s/%s' % (fn, lab), ok, fs[0].where,
+                   '' if ok else "%s('%s') returns %s, which is the `%s` functor over %s operands; two %s bounds on a column of type '%s' would be folded "
+                   'with the wrong order' % (fn, lab, op, legacy.get(op), rows[0].get('params'), 'lower' if want == 'max' else 'upper', lab))
+    rep.floor('R4-functor-type-rows', n, 8)
+    m_ = 0
+    for f in mi.functions:
+        if f.is_lambda:
+            continue
+        decls = {d['did']: d for d in f.walk() if d['k'] == 'VarDecl'}
+        for c in f.walk():
+            if not (is_call(c, 'getMaxOp') or is_call(c, 'getMinOp')):
+                continue
+            asg = next((a for a in f.ancestors(c) if a['k'] in ('BinaryOperator', 'CXXOperatorCallExpr') and a.get('op') == '='), None)
+            side = None
+            if asg is not None:
+                tgt = strip((kids(asg) if asg['k'] == 'BinaryOperator' else call_args(asg))[0], casts=True)
+                vd = decls.get(tgt.get('did'))
+                if vd is not None and kids(vd):
+                    mem = [x.get('member') for x in walk(kids(vd)[0]) if x['k'] == 'MemberExpr' and x.get('member') in ('first', 'second')]
+                    side = mem[0] if mem else None
+            want_side = 'first' if c['cn'] == 'getMaxOp' else 'second'
+            m_ += 1
+            rep.ob('R4-bound-folding-direction', '%s/%s' % (f.name, c['cn']), side == want_side, f.loc(c),
+                   '' if side == want_side else '%s folds into the %s bound of the pattern (lower bounds tighten by max, upper bounds by min)' % (
+                       c['cn'], {'first': 'lower', 'second': 'upper'}.get(side, 'unknown')))
+    rep.floor('R4-fold-sites', m_, 2)
+
+
 MUTANTS = [
     ('float-strict-to-raw-ne', HDR, 'case BinaryConstraintOp::FLT: return BinaryConstraintOp::FNE;', 'case BinaryConstraintOp::FLT: return BinaryConstraintOp::NE;', 'R1'),
     ('unsigned-strict-to-signed-weak', HDR, 'case BinaryConstraintOp::ULT: return BinaryConstraintOp::ULE;', 'case BinaryConstraintOp::ULT: return BinaryConstraintOp::LE;', 'R1'),
@@ -228,6 +282,9 @@ MUTANTS = [
         const auto& earlyType = rel.getAttributeTypes()[element];
         (void)earlyType;
         Own<Expression> lowerExpression;''', 'R3'),
+    ('unsigned-lower-bounds-folded-by-signed-max', 'src/FunctorOps.cpp', "        case 'u': return FunctorOp::UMAX;", "        case 'u': return FunctorOp::MAX;", 'R4'),
+    ('lower-bounds-folded-by-min', 'src/ram/transform/MakeIndex.cpp', 'lowerBound = mk<IntrinsicOperator>(getMaxOp(type), std::move(maxArguments));',
+     'lowerBound = mk<IntrinsicOperator>(getMinOp(type), std::move(maxArguments));', 'R4'),
     ('provenance-guard-dropped', 'src/ram/transform/MakeIndex.cpp', '''        if (isIneqConstraint(op) && provenance) {
             return {mk<UndefValue>(), mk<UndefValue>()};
         }
@@ -236,9 +293,11 @@ MUTANTS = [
 
 
 def analyse(rep):
-    u, mi = facts.extract([('src/ram/transform/MakeIndex.cpp', r'BinaryConstraintOps\.h$', r'.*'),
-                           ('src/ram/transform/MakeIndex.cpp', r'ram/transform/MakeIndex\.cpp$', r'MakeIndexTransformer::')])
-    rep.add_units([u, mi])
+    u, mi, fo = facts.extract([('src/ram/transform/MakeIndex.cpp', r'BinaryConstraintOps\.h$', r'.*'),
+                               ('src/ram/transform/MakeIndex.cpp', r'ram/transform/MakeIndex\.cpp$', r'MakeIndexTransformer::'),
+                               ('src/FunctorOps.cpp', r'src/FunctorOps\.cpp$', r'getMinOp|getMaxOp|functorOpNameLegacy')])
+    rep.add_units([u, mi, fo])
+    rule_bound_folding(rep, fo, mi)
     rule_algebra(rep, u)
     rule_guards(rep, mi)
     rule_out_param(rep, mi)
